@@ -111,6 +111,15 @@ OpCases(maxLen) ==
     {[kind |-> "ops", ops |-> o, published |-> p] :
         o \in UNION {OpsOfLen(k) : k \in 0..maxLen}, p \in BOOLEAN}
 
+\* the two lists and the two options: a state holds operations in its published list, in its unpublished list, or in
+\* both (the SAME requests: an operation that was anchored and is still waiting in the unpublished store), and either
+\* transformer ("did": the DID transformer, "doc": the generic document transformer) is made with every combination of
+\* the two include options.  Each list is reported exactly when ITS option is set, whatever the other list holds.
+SmallOpsOfLen(k) == [1..k -> [t : 0..1, n : 0..1, ref : {1, 2}]]
+OptCases ==
+    {[kind |-> "opts", ops |-> o, inPub |-> a, inUnpub |-> b, inclPub |-> ip, inclUnpub |-> iu, tr |-> t] :
+        o \in UNION {SmallOpsOfLen(k) : k \in 1..2}, a \in BOOLEAN, b \in BOOLEAN, ip \in BOOLEAN, iu \in BOOLEAN, t \in {"did", "doc"}}
+
 \* metadata fields: each present / absent, published or not
 MetaCases ==
     {[kind |-> "meta", upd |-> u, rec |-> r, ao |-> a, deact |-> d, published |-> p, created |-> c, updated |-> up, ver |-> v,
@@ -120,7 +129,7 @@ MetaCases ==
 
 CONSTANT MaxOps
 
-Cases == KeyCases \cup OpCases(MaxOps) \cup MetaCases
+Cases == KeyCases \cup OpCases(MaxOps) \cup OptCases \cup MetaCases
 
 Expected(c) ==
     CASE c.kind = "keys" ->
@@ -131,6 +140,12 @@ Expected(c) ==
             LET sorted == SortOps(c.ops)
                 out == IF c.published THEN Dedup(sorted, {}) ELSE sorted
             IN [slots |-> Slots(out), deterministic |-> (~c.published \/ Deterministic(c.ops)), count |-> Len(out)]
+      [] c.kind = "opts" ->
+            LET pub == IF c.inPub THEN c.ops ELSE <<>>
+                unpub == IF c.inUnpub THEN c.ops ELSE <<>>
+            IN [pubSlots |-> IF c.inclPub THEN Slots(Dedup(SortOps(pub), {})) ELSE <<>>,
+                unpubSlots |-> IF c.inclUnpub THEN Slots(SortOps(unpub)) ELSE <<>>,
+                deterministic |-> Deterministic(c.ops)]
       [] c.kind = "meta" ->
             [created |-> c.published,                       \* created is reported for published states
              updated |-> c.ver /\ c.updated > 0,            \* updated only with a version id and a non-zero time
@@ -159,4 +174,12 @@ SortedOps ==
         /\ \A i \in 1..(Len(s) - 1) : ~Before(s[i + 1], s[i])
         /\ \A o \in Range(cs.ops) : Cardinality({i \in 1..Len(s) : s[i] = o}) = Cardinality({i \in 1..Len(cs.ops) : cs.ops[i] = o})
         /\ LET d == Dedup(s, {}) IN Cardinality({d[i].ref : i \in 1..Len(d)}) = Len(d)
+
+\* an option governs its own list only
+OptionsIndependent ==
+    cs.kind = "opts" =>
+        LET e == Expected(cs) IN
+        /\ (e.pubSlots # <<>>) => (cs.inclPub /\ cs.inPub)
+        /\ (e.unpubSlots # <<>>) <=> (cs.inclUnpub /\ cs.inUnpub)
+        /\ (cs.inclUnpub /\ cs.inUnpub) => Len(e.unpubSlots) = Len(cs.ops)      \* (every unpublished operation, also one that is published too)
 =============================================================================
